@@ -98,6 +98,16 @@ Theorem C17_policy_pool_closed : forall ls s,
 Proof. exact policy_pool_closed_lemma. Qed.
 Print Assumptions C17_policy_pool_closed.
 
+(* At any time: a host pool that has left the table (removeHost on a node-down event or after a failed
+   fill, SetHosts, Close) has been closed or its `go pool.Close()` is queued -- whatever it held when
+   it left, in particular when it was empty with its first connect still in flight.  A closed pool
+   closes what arrives late (C17_no_conn_survives_close). *)
+Theorem C17_policy_pool_removed_closed : forall ls s p,
+  pprun ppool_init ls = Some s -> (p < pp_next s)%nat ->
+  ~ In p (map snd (pp_map s)) -> In p (pp_closedpools s) \/ In p (pp_detached s).
+Proof. exact policy_pool_removed_closed_lemma. Qed.
+Print Assumptions C17_policy_pool_removed_closed.
+
 (* ---------------- controlConn: reconnect against close ---------------- *)
 
 (* Reconnects terminate: any run of steps of reconnect goroutines (given that dials, setupConn and
